@@ -17,6 +17,22 @@ Definition run_struct (e : fexpr) := rmap structure (eval Fops e).
 Definition run_matrix (n : nat) (e : fexpr) :=
   rmap (fun o => (structure o, matrix Fops o n)) (eval Fops e).
 
+(** [SingleOp::c(m)] called on element [idx] of the queue (identity when the queue is shorter) *)
+Definition run_single_c (n : nat) (idx : nat) (m : N) (e : fexpr) :=
+  match eval Fops e with
+  | ROk q =>
+      match nth_error q idx with
+      | Some s =>
+          match single_c s m with
+          | Some s2 => let o := multi_of_single s2 in ROk (structure o, matrix Fops o n)
+          | None => RRefused
+          end
+      | None => ROk (structure [], matrix Fops [] n)
+      end
+  | RRefused => RRefused
+  | RPanic k => RPanic k
+  end.
+
 (** register buffer: max(2^n, 8) cells *)
 Definition buf_len (n : nat) : nat := Nat.max (Nat.pow 2 n) 8.
 
